@@ -14,14 +14,14 @@ import (
 
 // C09 — one message per frame: concurrent writers of one stream never interleave.
 //
-//   R-field-writer   a writer stored in a field of a struct that declares a mutex (GET stream,
-//                    legacy SSE stream, stdio client stdin) is only written to / flushed / passed
-//                    to a writing function while one common mutex of that struct is held
-//   R-shared-writer  a writer handed to a goroutine (legacy SSE pumps, stdio server stdout) is only
-//                    written to under a mutex, and all writers of the same stream agree on it
-//   R-frame-atomic   all writes of one function to such a stream lie in one critical section
-//   R-payload        the payload spliced into a "data: %s" frame / a stdio line is the result of
-//                    json.Marshal (compact, no raw newline), not MarshalIndent / Encoder / raw text
+//	R-field-writer   a writer stored in a field of a struct that declares a mutex (GET stream,
+//	                 legacy SSE stream, stdio client stdin) is only written to / flushed / passed
+//	                 to a writing function while one common mutex of that struct is held
+//	R-shared-writer  a writer handed to a goroutine (legacy SSE pumps, stdio server stdout) is only
+//	                 written to under a mutex, and all writers of the same stream agree on it
+//	R-frame-atomic   all writes of one function to such a stream lie in one critical section
+//	R-payload        the payload spliced into a "data: %s" frame / a stdio line is the result of
+//	                 json.Marshal (compact, no raw newline), not MarshalIndent / Encoder / raw text
 func init() { Registry["C09"] = checkC09 }
 
 var writeMethods = map[string]bool{"Write": true, "WriteString": true, "WriteHeader": true, "Flush": true, "Encode": true, "ReadFrom": true, "Sync": true}
